@@ -12,6 +12,20 @@ import (
 
 func c07Judge(c *Ctx, cs *Case) {
 	c.Begin(cs)
+	if cs.Mode == "repl" {
+		o := RunCLI(CLIOpts{Bin: c.Bin, Args: []string{}, Stdin: cs.Src, Dir: c.Scratch, Timeout: 20 * time.Second, Merge: true})
+		c.Count("cli_runs", 1)
+		if o.TimedOut {
+			c.Count("cli_watchdog_skips", 1)
+			return
+		}
+		if o.Exit != 0 || strings.Contains(o.Merged, "panic:") || strings.Contains(o.Merged, "fatal error:") || strings.Contains(o.Merged, "goroutine 1 [") {
+			c.Violate(Violation{Why: fmt.Sprintf("interactive session ended abnormally (status %d)", o.Exit), Observed: trunc(o.Merged, 600), Signature: "cli-abnormal: " + firstPanicLine(o.Merged)})
+			return
+		}
+		c.Nontrivial("repl|" + cs.Src)
+		return
+	}
 	// domain: syntactically valid programs
 	toks, lerr := ref.Lex([]rune(cs.Src))
 	if len(lerr) > 0 {
@@ -244,6 +258,22 @@ func c07Run(c *Ctx) {
 			c07Judge(c, &Case{Gen: "handwritten-programs-cli", Mode: "cli", Src: src, Stdin: "in\n"})
 		}
 	}
+	// 5g. interactive sessions through the binary: whatever the lines are, the session ends normally
+	{
+		pool := c20Pool()
+		r := c.Rand("repl")
+		for k := 0; k < c.N(150, 5000); k++ {
+			var ls []string
+			for j := 0; j < 3+r.Intn(15); j++ {
+				if p := pool[r.Intn(len(pool))]; p.kind != "long" && p.kind != "lexical" && p.kind != "syntax" { // every line a valid program
+					ls = append(ls, p.text)
+				}
+			}
+			if c.Mine() {
+				c07Judge(c, &Case{Gen: "repl-sessions", Mode: "repl", Src: strings.Join(ls, "\n") + "\n"})
+			}
+		}
+	}
 	// 6. nesting / size stress
 	depth := c.N(3000, 10000)
 	stress := []struct{ name, src string }{
@@ -259,6 +289,8 @@ func c07Run(c *Ctx) {
 		{"recursion-40000", Fun("d", "n", " "+If("n == 0", Ret("0"))+" "+Ret("1 + d(n - 1)")+" ") + "\n" + Print("d(40000)")},
 		{"recursion-40000-fault-at-bottom", Fun("d", "n", " "+If("n == 0", Ret("nil.k"))+" "+Ret("1 + d(n - 1)")+" ") + "\n" + Print("d(40000)")},
 		{"while-600000-continues", Var("i", "0") + "\n" + Var("hits", "0") + "\n" + While("i < 1400000", "{ i = i + 1; "+If("i % 7 != 0", Continue())+" hits = hits + 1; }") + "\n" + Print("hits")},
+		{"recursion-170000", Fun("d", "n", " "+If("n == 0", Ret("0"))+" "+Ret("1 + d(n - 1)")+" ") + "\n" + Print("d(170000)")},
+		{"mutual-recursion-160000", Fun("ev", "n", " "+If("n == 0", Ret(True()))+" "+Ret("od(n - 1)")+" ") + "\n" + Fun("od", "n", " "+If("n == 0", Ret(False()))+" "+Ret("ev(n - 1)")+" ") + "\n" + Print("ev(160000)")},
 		{"recursion-2000", Fun("d", "n", " "+If("n == 0", Ret("0"))+" "+Ret("1 + d(n - 1)")+" ") + "\n" + Print("d(2000)")},
 		{"array-grow", Var("a", "[]") + "\n" + For(Var("i", "0"), "i < "+fmt.Sprint(c.N(20000, 100000)), "i = i + 1", "{ a = "+BI("append", "a", "i")+"; }") + "\n" + Print(BI("len", "a"))},
 		{"string-grow", Var("s", `"x"`) + "\n" + For(Var("i", "0"), "i < 18", "i = i + 1", "{ s = s + s; }") + "\n" + Print(`(s + "y") == s`)},
@@ -269,6 +301,12 @@ func c07Run(c *Ctx) {
 		{"equality-self", Var("a", "[1]") + "\na[0] = a;\n" + Print("a == a") + "\n" + Print("a == [a]")},
 	}
 	for _, s := range stress {
+		if strings.Contains(s.name, "recursion-1") && c.Mine() { // the very deep ones: as a separate process only
+			c07Judge(c, &Case{Gen: "stress-" + s.name + "-cli", Mode: "cli", Src: s.src + "\n", X: map[string]string{"deep": "1"}})
+			continue
+		} else if strings.Contains(s.name, "recursion-1") {
+			continue
+		}
 		if c.Mine() {
 			c07Judge(c, &Case{Gen: "stress-" + s.name, Src: s.src + "\n", X: map[string]string{"deep": "1"}})
 		}
